@@ -41,15 +41,14 @@ Section More.
       pose proof (al_dft fam n Hf Hn0 Hn8 (i_rank key + 1) (i_size key) ltac:(lia) Hsz). lia.
   Qed.
 
-  (* glwe_automorphism_add: in the cross-radix branch the per-column vec_znx_big_automorphism_assign and
-     vec_znx_big_normalize run on what is left AFTER the re-normalised copy of the input, which the formula
-     (that of glwe_keyswitch) does not provide for: true when that remainder is large enough *)
-  Lemma suffices_glwe_automorphism_add_partial (res a key : infos) :
+  (* glwe_automorphism_add / _sub / _sub_negate: key-switch into res_dft, then vec_znx_big_automorphism_assign and
+     vec_znx_big_normalize per column, in the cross-radix branch beside the re-normalised copy of the input *)
+  Lemma automorphism_add_spec (res a key : infos) :
     wf_infos res -> wf_infos a -> wf_infos key -> i_n a = n -> i_rank a = i_rank_in key ->
-    fam = 0 \/ i_base2k a = i_base2k key \/ 2 <= i_rank a * i_size (conv_layout a key) ->
-    run_takes (tree_glwe_automorphism_add fam n res a key) (0, glwe_automorphism_tmp_bytes fam n res a key) <> None.
+    aligned_tree (tree_glwe_automorphism_add fam n res a key) /\
+    demand (tree_glwe_automorphism_add fam n res a key) <= glwe_automorphism_tmp_bytes fam n res a key.
   Proof using Hf Hn0 Hn8.
-    intros Hres Ha Hk Hna Hrk Hside.
+    intros Hres Ha Hk Hna Hrk.
     assert (Hrr : 0 <= i_rank res) by (destruct Hres as (_&_&?&_); lia).
     assert (Has : 0 <= i_size a) by (destruct Ha as (_&?&_); lia).
     assert (Har : 0 <= i_rank a) by (destruct Ha as (_&_&?&_); lia).
@@ -63,67 +62,165 @@ Section More.
     pose proof (al_dft fam n Hf Hn0 Hn8 (i_rank res + 1) (i_size key) ltac:(lia) Hks) as HD0.
     destruct (glwe_normalize_spec fam n Hf Hn0 Hn8 (i_rank a + 1)) as [Agn Dgn].
     destruct (keyswitch_spec fam n Hf Hn0 Hn8 res a key Hres Ha Hk Hna Hrk) as (_ & _ & Hks0).
-    apply aligned_suffices; unfold tree_glwe_automorphism_add, glwe_automorphism_tmp_bytes, glwe_keyswitch_tmp_bytes in *; cbv zeta in *.
-    - destruct (Z.eqb_spec (i_base2k a) (i_base2k key)) as [E|E]; cbn [negb].
-      + destruct (ks_internal_spec fam n Hf Hn0 Hn8 a key Hk Has Hrk) as [Ai Di].
-        cbn [aligned_tree]. unfold ALIGN. intuition; lia.
-      + destruct (conv_layout_facts fam n Hf Hn0 Hn8 a key Ha Hk Hna) as (Hcs & Hcr & Hcb & Hc0 & Hc64).
-        destruct (ks_internal_spec fam n Hf Hn0 Hn8 (conv_layout a key) key Hk Hcs ltac:(lia)) as [Ai Di].
-        unfold t_take_glwe. cbn [aligned_tree]. unfold ALIGN. intuition; lia.
-    - destruct (Z.eqb_spec (i_base2k a) (i_base2k key)) as [E|E]; cbn [negb] in *.
-      + destruct (ks_internal_spec fam n Hf Hn0 Hn8 a key Hk Has Hrk) as [Ai Di].
-        rewrite (ks_internal_res_indep fam n Hf Hn0 Hn8 res key a key) in *.
-        pose proof (aligned_need_nonneg _ Ai).
-        cbn [demand persist]. rewrite Db. destruct_loops; lia.
-      + destruct (conv_layout_facts fam n Hf Hn0 Hn8 a key Ha Hk Hna) as (Hcs & Hcr & Hcb & Hc0 & Hc64).
-        fold (conv_layout a key) in *.
-        destruct (ks_internal_spec fam n Hf Hn0 Hn8 (conv_layout a key) key Hk Hcs ltac:(lia)) as [Ai Di].
-        rewrite (ks_internal_res_indep fam n Hf Hn0 Hn8 res key (conv_layout a key) key) in *.
-        pose proof (aligned_need_nonneg _ Ai). rewrite Hcb in *. unfold t_take_glwe.
-        assert (Hbn : hal_vec_znx_big_normalize_tmp_bytes fam n <=
-                      Z.max (glwe_normalize_tmp_bytes fam n) (glwe_keyswitch_internal_tmp_bytes fam n key (conv_layout a key) key)).
-        { destruct Hside as [-> | [Hs | Hs]]; [autounfold with c12gen; cbn [Z.eqb]; lia | contradiction |].
-          pose proof (ks_internal_lower key (conv_layout a key) key Hk Hcs ltac:(lia)) as Hlow.
-          rewrite Hcr in Hlow.
-          assert (n * 2 <= n * (i_rank a * i_size (conv_layout a key))) by (apply Z.mul_le_mono_nonneg_l; lia).
-          revert Hlow. autounfold with c12gen. destruct Hf as [-> | ->]; cbn [Z.eqb]; intros; lia. }
-        cbn [demand persist]. rewrite Db. destruct_loops; lia.
+    unfold tree_glwe_automorphism_add, glwe_automorphism_tmp_bytes, glwe_keyswitch_tmp_bytes in *; cbv zeta in *.
+    destruct (Z.eqb_spec (i_base2k a) (i_base2k key)) as [E|E]; cbn [negb] in *.
+    - destruct (ks_internal_spec fam n Hf Hn0 Hn8 a key Hk Has Hrk) as [Ai Di].
+      rewrite (ks_internal_res_indep fam n Hf Hn0 Hn8 res key a key) in *.
+      pose proof (aligned_need_nonneg _ Ai). split.
+      + cbn [aligned_tree]. unfold ALIGN. intuition; lia.
+      + cbn [demand persist]. rewrite Db. destruct_loops; lia.
+    - destruct (conv_layout_facts fam n Hf Hn0 Hn8 a key Ha Hk Hna) as (Hcs & Hcr & Hcb & Hc0 & Hc64).
+      fold (conv_layout a key) in *.
+      destruct (ks_internal_spec fam n Hf Hn0 Hn8 (conv_layout a key) key Hk Hcs ltac:(lia)) as [Ai Di].
+      rewrite (ks_internal_res_indep fam n Hf Hn0 Hn8 res key (conv_layout a key) key) in *.
+      pose proof (aligned_need_nonneg _ Ai). rewrite Hcb in *. unfold t_take_glwe. split.
+      + cbn [aligned_tree]. unfold ALIGN. intuition; lia.
+      + cbn [demand persist]. rewrite Db. destruct_loops; lia.
+  Qed.
+
+  Lemma suffices_glwe_automorphism_add (res a key : infos) :
+    wf_infos res -> wf_infos a -> wf_infos key -> i_n a = n -> i_rank a = i_rank_in key ->
+    run_takes (tree_glwe_automorphism_add fam n res a key) (0, glwe_automorphism_tmp_bytes fam n res a key) <> None.
+  Proof using Hf Hn0 Hn8.
+    intros. destruct (automorphism_add_spec res a key) as (A & D); auto. apply aligned_suffices; auto.
+  Qed.
+
+  (* ---------------------------------------------------------------------------------------------- *)
+  (* glwe_trace / glwe_trace_assign *)
+  Lemma rsh_spec (res : infos) :
+    aligned_tree (tree_glwe_rsh fam n res) /\ demand (tree_glwe_rsh fam n res) <= glwe_shift_tmp_bytes fam n.
+  Proof using Hf Hn0 Hn8.
+    destruct (callee_rsh fam n Hf Hn0 Hn8) as [Ar Dr]. pose proof (aligned_need_nonneg _ Ar).
+    unfold tree_glwe_rsh, glwe_shift_tmp_bytes. cbv zeta. rewrite Dr in *. split.
+    - cbn [aligned_tree]. split; [lia | exact Ar].
+    - cbn [demand persist]. rewrite Dr. destruct_loops; lia.
+  Qed.
+
+  Lemma trace_assign_same_spec (res key : infos) (steps : Z) :
+    wf_infos res -> wf_infos key -> i_n res = n -> i_rank res = i_rank_in key ->
+    aligned_tree (t_glwe_trace_assign_same fam n res key steps) /\
+    demand (t_glwe_trace_assign_same fam n res key steps) <= glwe_trace_assign_same_radix_tmp_bytes fam n res key /\
+    0 <= glwe_trace_assign_same_radix_tmp_bytes fam n res key.
+  Proof using Hf Hn0 Hn8.
+    intros Hres Hk Hn Hrk.
+    destruct (rsh_spec res) as [Ar Dr]. destruct (automorphism_add_spec res res key Hres Hres Hk Hn Hrk) as [Aa Da].
+    pose proof (aligned_need_nonneg _ Ar). pose proof (aligned_need_nonneg _ Aa).
+    unfold t_glwe_trace_assign_same, glwe_trace_assign_same_radix_tmp_bytes. split; [|split].
+    - cbn [aligned_tree]. intuition; lia.
+    - cbn [demand persist]. destruct_loops; lia.
+    - lia.
+  Qed.
+
+  (* a temporary GLWE in the radix of the keys *)
+  Lemma key_radix_layout_facts (nn k rank : Z) (key : infos) : wf_infos key -> nn = n -> 0 <= k -> 0 <= rank ->
+    let c := mk_glwe_layout nn (i_base2k key) k rank in
+    wf_infos c /\ i_n c = n /\ i_rank c = rank /\ i_base2k c = i_base2k key /\
+    GLWE_bytes_of_from_infos c = VecZnx_bytes_of (i_n c) (i_rank c + 1) (i_size c) /\
+    0 <= VecZnx_bytes_of (i_n c) (i_rank c + 1) (i_size c) /\ VecZnx_bytes_of (i_n c) (i_rank c + 1) (i_size c) mod 64 = 0.
+  Proof using Hf Hn0 Hn8.
+    intros (Hkb & _) -> Hk Hr c.
+    assert (Hs : 0 <= i_size c) by (unfold c, mk_glwe_layout; cbn [i_size]; apply div_ceil_nonneg; lia).
+    split; [unfold wf_infos, c, mk_glwe_layout in *; cbn [i_base2k i_size i_rank i_rank_in i_dnum i_dsize] in *; lia|].
+    split; [reflexivity|]. split; [reflexivity|]. split; [reflexivity|]. split.
+    - unfold GLWE_bytes_of_from_infos, GLWE_bytes_of, i_max_k. f_equal.
+      replace (i_base2k c) with (i_base2k key) by reflexivity. apply div_ceil_mul; lia.
+    - change (i_n c) with n. change (i_rank c) with rank. apply (al_vec_znx fam n Hf Hn0 Hn8); lia.
+  Qed.
+
+  Lemma suffices_glwe_trace (res a key : infos) (steps : Z) :
+    wf_infos res -> wf_infos a -> wf_infos key -> i_n res = n -> i_rank res = i_rank_in key ->
+    run_takes (tree_glwe_trace fam n res a key steps) (0, glwe_trace_tmp_bytes fam n res a key) <> None.
+  Proof using Hf Hn0 Hn8.
+    intros Hres Ha Hk Hn Hrk.
+    assert (Hmk : 0 <= Z.max (i_max_k a) (i_max_k res)).
+    { destruct Hres as (?&?&_). unfold i_max_k. assert (0 <= i_size res * i_base2k res) by nia. lia. }
+    assert (Hrr : 0 <= i_rank res) by (destruct Hres as (_&_&?&_); lia).
+    destruct (key_radix_layout_facts (i_n res) (Z.max (i_max_k a) (i_max_k res)) (i_rank res) key Hk Hn Hmk Hrr)
+      as (Wt & Nt & Rt & Bt & Hcb & Hc0 & Hc64).
+    fold (tmp_layout res a key) in *.
+    destruct (trace_assign_same_spec (tmp_layout res a key) key steps Wt Hk Nt ltac:(lia)) as (As & Ds & S0).
+    destruct (glwe_normalize_spec fam n Hf Hn0 Hn8 (i_rank res + 1)) as [Agn Dgn].
+    pose proof (aligned_need_nonneg _ Agn).
+    apply aligned_suffices; unfold tree_glwe_trace, glwe_trace_tmp_bytes, t_take_glwe; cbv zeta;
+      fold (tmp_layout res a key); rewrite Hcb.
+    - destruct (negb (i_base2k a =? i_base2k key)); destruct (negb (i_base2k res =? i_base2k key));
+        cbn [aligned_tree]; unfold ALIGN; intuition; lia.
+    - destruct (negb (i_base2k a =? i_base2k key)); destruct (negb (i_base2k res =? i_base2k key));
+        cbn [demand persist]; lia.
+  Qed.
+
+  (* the formula reads only n, base2k, size and rank of a GLWE description *)
+  Lemma same_radix_bytes_ext (r r' key : infos) :
+    i_n r = i_n r' -> i_base2k r = i_base2k r' -> i_size r = i_size r' -> i_rank r = i_rank r' ->
+    glwe_trace_assign_same_radix_tmp_bytes fam n r key = glwe_trace_assign_same_radix_tmp_bytes fam n r' key.
+  Proof using Hf Hn0 Hn8.
+    intros H1 H2 H3 H4.
+    unfold glwe_trace_assign_same_radix_tmp_bytes, glwe_automorphism_tmp_bytes, glwe_keyswitch_tmp_bytes,
+      glwe_keyswitch_internal_tmp_bytes, GLWE_bytes_of_from_infos, GLWE_bytes_of, i_max_k. cbv zeta.
+    rewrite H1, H2, H3, H4. reflexivity.
+  Qed.
+
+  Lemma suffices_glwe_trace_assign (res key : infos) (steps : Z) :
+    wf_infos res -> wf_infos key -> i_n res = n -> i_rank res = i_rank_in key ->
+    run_takes (tree_glwe_trace_assign fam n res key steps) (0, glwe_trace_tmp_bytes fam n res res key) <> None.
+  Proof using Hf Hn0 Hn8.
+    intros Hres Hk Hn Hrk.
+    assert (Hmk : 0 <= i_max_k res).
+    { destruct Hres as (?&?&_). unfold i_max_k. nia. }
+    assert (Hrr : 0 <= i_rank res) by (destruct Hres as (_&_&?&_); lia).
+    destruct (key_radix_layout_facts (i_n res) (i_max_k res) (i_rank res) key Hk Hn Hmk Hrr) as (Wt & Nt & Rt & Bt & Hcb & Hc0 & Hc64).
+    fold (conv_layout res key) in *.
+    destruct (glwe_normalize_spec fam n Hf Hn0 Hn8 (i_rank res + 1)) as [Agn Dgn].
+    pose proof (aligned_need_nonneg _ Agn).
+    assert (Htl : mk_glwe_layout (i_n res) (i_base2k key) (Z.max (i_max_k res) (i_max_k res)) (i_rank res) = conv_layout res key)
+      by (unfold conv_layout; rewrite Z.max_id; reflexivity).
+    unfold tree_glwe_trace_assign. destruct (Z.eqb_spec (i_base2k res) (i_base2k key)) as [E|E]; cbn [negb].
+    - (* same radix: the formula still contains a temporary that is not needed *)
+      destruct (trace_assign_same_spec res key steps Hres Hk Hn Hrk) as (As & Ds & S0).
+      apply aligned_suffices; auto. unfold glwe_trace_tmp_bytes; cbv zeta. rewrite Htl, Hcb.
+      assert (Heq : glwe_trace_assign_same_radix_tmp_bytes fam n (conv_layout res key) key = glwe_trace_assign_same_radix_tmp_bytes fam n res key).
+      { apply same_radix_bytes_ext; try reflexivity.
+        - cbn [conv_layout mk_glwe_layout i_base2k]. congruence.
+        - unfold conv_layout, mk_glwe_layout, i_max_k; cbn [i_size]. rewrite <- E. apply div_ceil_mul. destruct Hres as (?&_). lia. }
+      lia.
+    - destruct (trace_assign_same_spec (conv_layout res key) key steps Wt Hk Nt ltac:(lia)) as (As & Ds & S0).
+      apply aligned_suffices; unfold glwe_trace_tmp_bytes, t_take_glwe; cbv zeta; rewrite Htl, Hcb.
+      + cbn [aligned_tree]. unfold ALIGN. intuition; lia.
+      + cbn [demand persist]. lia.
+  Qed.
+
+  (* ---------------------------------------------------------------------------------------------- *)
+  (* glwe_mul_const *)
+  Lemma suffices_glwe_mul_const (res a : infos) (b_len cnv_offset : Z) :
+    wf_infos res -> wf_infos a -> 1 <= i_size a -> 1 <= b_len -> 0 <= cnv_offset ->
+    (if cnv_offset <? i_base2k a then 0 else Z.max 0 (cnv_offset / i_base2k a - 1)) <= i_size a + b_len ->
+    run_takes (tree_glwe_mul_const fam n res a b_len cnv_offset) (0, glwe_mul_const_tmp_bytes fam n res a b_len) <> None.
+  Proof using Hf Hn0 Hn8.
+    intros Hres Ha Has Hb Hc Hhi.
+    assert (Hrr : 0 <= i_rank res) by (destruct Hres as (_&_&?&_); lia).
+    set (hi := if cnv_offset <? i_base2k a then 0 else Z.max 0 (cnv_offset / i_base2k a - 1)) in *.
+    assert (Hhi0 : 0 <= hi) by (unfold hi; destruct (cnv_offset <? i_base2k a); lia).
+    set (rds := i_size a + b_len - hi).
+    destruct (callee_big_normalize fam n Hf Hn0 Hn8) as [Ab Db]. pose proof (nn_bnorm fam n Hf Hn0 Hn8).
+    pose proof (al_big fam n Hf Hn0 Hn8 1 rds ltac:(lia) ltac:(unfold rds; lia)) as HB.
+    pose proof (big_mono fam n Hf Hn0 Hn8 1 (i_size a + b_len) rds ltac:(lia) ltac:(unfold rds; lia)) as HBm.
+    assert (Hcnv : aligned_tree (t_cnv_by_const_apply fam rds (i_size a) b_len) /\
+                   demand (t_cnv_by_const_apply fam rds (i_size a) b_len)
+                     <= api_cnv_by_const_apply_tmp_bytes fam n (Z.max (i_size a) b_len) (i_size a + b_len) (i_size a) b_len).
+    { unfold t_cnv_by_const_apply, take_words. autounfold with c12gen.
+      destruct Hf as [-> | ->]; cbn [Z.eqb aligned_tree demand]; unfold ALIGN, rds; lia. }
+    destruct Hcnv as [Ac Dc]. pose proof (aligned_need_nonneg _ Ac).
+    apply aligned_suffices; unfold tree_glwe_mul_const, glwe_mul_const_tmp_bytes; cbv zeta; fold hi; fold rds.
+    - cbn [aligned_tree]. unfold ALIGN. intuition; lia.
+    - cbn [demand persist]. rewrite Db. destruct_loops; lia.
   Qed.
 End More.
 
 (* ---- refutations *)
 Definition inf0 (n b2k size rank : Z) : infos := mkInfos n b2k size rank rank 0 1.
 
-Lemma suffices_glwe_automorphism_add_refuted :
-  exists fam n res a key, is_fam fam /\ pow2 n /\ 8 <= n /\ wf_infos res /\ wf_infos a /\ wf_infos key /\
-    i_n a = n /\ i_rank a = i_rank_in key /\
-    run_takes (tree_glwe_automorphism_add fam n res a key) (0, glwe_automorphism_tmp_bytes fam n res a key) = None.
-Proof.
-  exists 1, 16, (inf0 16 17 1 1), (inf0 16 13 1 1), (mkInfos 16 17 2 1 1 1 1).
-  split; [right; reflexivity|]. split; [exists 4; split; [lia|reflexivity]|]. split; [lia|].
-  split; [unfold wf_infos; cbn; lia|]. split; [unfold wf_infos; cbn; lia|]. split; [unfold wf_infos; cbn; lia|].
-  split; [reflexivity|]. split; [reflexivity|]. vm_compute; reflexivity.
-Qed.
 
 (* glwe_trace: after taking its temporary, glwe_trace calls glwe_trace_assign, whose entry assertion asks for
    glwe_trace_tmp_bytes of the temporary - which again contains the temporary *)
-Lemma suffices_glwe_trace_refuted :
-  exists fam n res a key steps, is_fam fam /\ pow2 n /\ 8 <= n /\ wf_infos res /\ wf_infos a /\ wf_infos key /\
-    i_n a = n /\ i_rank a = i_rank_in key /\ i_base2k a = i_base2k key /\ i_base2k res = i_base2k key /\ 0 <= steps /\
-    run_takes (tree_glwe_trace_same fam n res a key steps) (0, glwe_trace_tmp_bytes fam n res a key) = None.
-Proof.
-  exists 0, 8, (inf0 8 17 2 1), (inf0 8 17 2 1), (mkInfos 8 17 3 1 1 2 1), 3.
-  split; [left; reflexivity|]. split; [exists 3; split; [lia|reflexivity]|]. split; [lia|].
-  split; [unfold wf_infos; cbn; lia|]. split; [unfold wf_infos; cbn; lia|]. split; [unfold wf_infos; cbn; lia|].
-  split; [reflexivity|]. split; [reflexivity|]. split; [reflexivity|]. split; [reflexivity|]. split; [lia|]. vm_compute; reflexivity.
-Qed.
 
 (* glwe_mul_const: the formula sizes the VecZnxBig and the convolution scratch from other quantities than the code *)
-Lemma suffices_glwe_mul_const_refuted :
-  exists fam n res a b_len cnv_offset, is_fam fam /\ pow2 n /\ 8 <= n /\ wf_infos res /\ wf_infos a /\ 1 <= b_len /\ 0 <= cnv_offset /\
-    run_takes (tree_glwe_mul_const fam n res a b_len cnv_offset) (0, glwe_mul_const_tmp_bytes fam n res a b_len) = None.
-Proof.
-  exists 0, 8, (inf0 8 17 2 1), (inf0 8 17 2 1), 1, 0.
-  split; [left; reflexivity|]. split; [exists 3; split; [lia|reflexivity]|]. split; [lia|].
-  split; [unfold wf_infos; cbn; lia|]. split; [unfold wf_infos; cbn; lia|]. split; [lia|]. split; [lia|]. vm_compute; reflexivity.
-Qed.
